@@ -409,6 +409,8 @@ Inductive op :=
 | XStopFlags | XStopEnq                                           (* foreign stop() *)
 | XDisconnectFlag | XDisconnectRest                               (* foreign disconnect(): store; lock + shutdown() *)
 | XDestroyRead | XDestroyRest                                     (* foreign ~TcpClient: snapshot under mutex_; the rest *)
+| XDestroyInWrite                                                 (* POLLOUT, SO_ERROR 0: Connector::handleWrite has read connect_ == true and is inside
+                                                                     TcpClient::newConnection, about to take mutex_, when a foreign thread runs ~TcpClient to its end *)
 | ConnectResult (e : Z)                                           (* script the answer of the next ::connect *)
 | EvWritable (err : Z) (selfc : bool)                             (* POLLOUT on the connector's channel; SO_ERROR; self-connect *)
 | EvError                                                         (* POLLERR on the connector's channel *)
@@ -495,6 +497,14 @@ Definition step_core (s : st) (o : op) : option M :=      (* outer None = Reject
       match dsnap s with
       | Some snap => Some (destroy_rest (set_dsnap s None) snap false)
       | None => None
+      end
+  | XDestroyInWrite =>
+      if negb (user_api_ok s) || xc s || xs s || xd s then None else
+      match k_chan s with
+      | Some (_, true) =>
+          if k_dead s || negb (kstate_eqb (k_state s) KConnecting) || negb (k_connect s) then None
+          else Some None            (* newConnection continues on the freed TcpClient (FIXME: unsafe) *)
+      | _ => None
       end
   | ConnectResult e => Some (ret (set_kq s (kq s ++ [e])))
   | EvWritable err selfc =>
@@ -613,7 +623,7 @@ Definition contract (s : st) (o : op) : bool :=
   | Connect | XConnectFlags => idle s
   | TimerFire => timely s
   | Destroy => destroy_ok s
-  | XDestroyRead | XDestroyRest => false        (* the theorems are about destruction on the loop thread *)
+  | XDestroyRead | XDestroyRest | XDestroyInWrite => false        (* the theorems are about destruction on the loop thread *)
   | Down => loop_order s
   | _ => true
   end.
